@@ -274,6 +274,7 @@ class VerifyAccessory:
         self.C = None
         self.shared = None               # V
         self.secret = None               # bytes of the session secret once established
+        self.secret_v = None             # ... and as a dual value
 
     def on_m1(self, m1: bytes):
         """returns ('verify', M2Draft) | ('resumed', items) | ('rejected', items)"""
@@ -293,6 +294,7 @@ class VerifyAccessory:
                 tag = U.seal(U.hkdf(secret, C + nsid, lit(L_RES_RESP)), lit(nonce12(b"PR-Msg02")), lit(b""), lit(b""))
                 new_secret = U.hkdf(secret, C + nsid, lit(L_RES_SECRET))
                 self.state, self.secret, self.sid = "resumed", new_secret.b, nsid.b
+                self.secret_v = new_secret
                 return "resumed", [(T_STATE, lit(b"\x02")), (T_METHOD, lit(b"\x06")), (T_SID, nsid), (T_ENC, tag)]
         shared = U.dh(self.eph, C)
         if shared is None:
@@ -326,6 +328,7 @@ class VerifyAccessory:
         if not ed_verify(self.ctrl_ltpk.b, sub[T_SIG], info):
             return False, reject
         self.secret = self.shared.b
+        self.secret_v = self.shared
         self.sid = hkdf_sha512(self.secret, L_SID_SALT, L_SID_INFO, 8)
         return True, [(T_STATE, lit(b"\x04"))]
 
